@@ -165,6 +165,17 @@ pub async fn preempt_point_current(site: &'static str) {
     }
 }
 
+/// Returns true if [`preempt_point`] has asked for a yield of the process that
+/// [`select_gate`] has not completed yet.
+///
+/// Such a `select` call stands for "the process is not running for a while",
+/// not for a `select` the code under test would issue: it must not install the
+/// signal mask of a real call, or signals that are blocked at the preemption
+/// point would be delivered there.
+pub fn preempt_requested(pid: Pid) -> bool {
+    PREEMPT.with(|p| p.borrow().contains_key(&pid))
+}
+
 /// Gate called from the `poll_fn` of `VirtualSystem::select`.
 pub fn select_gate(pid: Pid, cx: &mut Context<'_>) -> Option<Poll<Result<c_int, Errno>>> {
     // Lets the simulator detect a process that spins in `select` without ever
